@@ -254,6 +254,48 @@ def run(ctx, res):
                                 and {txt(t_.left), txt(t_.comparators[0])} == {txt(x_), txt(y_)}:
                             guarded = True
             if not raw:
+                # Segment(L[0], L[1]): the collection must merge equal points -- it comes from a set, or every append is behind `not in L`
+                plain = None
+                if all(isinstance(a_, ast.Subscript) and isinstance(a_.value, ast.Name) for a_ in (x_, y_)) and x_.value.id == y_.value.id:
+                    L_ = x_.value.id
+                    from ..astutil import assigned_names
+                    defs_ = assigned_names(h_.node).get(L_, [])
+                    from_set = any(isinstance(d_, ast.Assign) and isinstance(d_.value, ast.Call) and isinstance(d_.value.func, ast.Name)
+                                   and d_.value.func.id in ("list", "tuple", "sorted") and d_.value.args
+                                   and any(isinstance(t, tuple) and t[0] == "set" for t in ctx.types.types_at(h_, d_.value.args[0]))
+                                   for d_ in defs_)
+                    empty_list = any(isinstance(d_, ast.Assign) and isinstance(d_.value, ast.List) and not d_.value.elts for d_ in defs_)
+                    if not from_set and empty_list:
+                        def root_(e__):
+                            b__ = e__
+                            while isinstance(b__, ast.Attribute):
+                                b__ = b__.value
+                            return b__.id if isinstance(b__, ast.Name) and isinstance(e__, ast.Attribute) and b__.id in h_.params[:2] else None
+                        aps_ = sorted([ap_ for ap_ in walk_local(h_.node) if isinstance(ap_, ast.Call) and isinstance(ap_.func, ast.Attribute)
+                                       and ap_.func.attr == "append" and isinstance(ap_.func.value, ast.Name) and ap_.func.value.id == L_ and ap_.args],
+                                      key=lambda a_: (a_.lineno, a_.col_offset))
+                        seen_roots = []
+                        for ap_ in aps_:
+                            e_txt = txt(ap_.args[0])
+                            cur_, guarded_ = ap_, False
+                            while id(cur_) in par_:
+                                cur_ = par_[id(cur_)]
+                                if isinstance(cur_, ast.If) and any(isinstance(t_, ast.Compare) and len(t_.ops) == 1 and isinstance(t_.ops[0], ast.NotIn)
+                                                                    and txt(t_.left) == e_txt and txt(t_.comparators[0]) == L_ for t_ in ast.walk(cur_.test)):
+                                    guarded_ = True
+                            r_ = root_(ap_.args[0])
+                            # the distinct end points of ONE operand cannot coincide (its constructor rejects that)
+                            same_operand = r_ is not None and all(x_ == r_ for x_ in seen_roots)
+                            if not guarded_ and seen_roots and not same_operand and plain is None:
+                                plain = ap_
+                            seen_roots.append(r_)
+                if plain is not None:
+                    res.ob("R1.10", h_.where(c_), "%s: `%s`" % (h_.short, txt(c_)[:50]), False, "`%s` may add a point that is already in the list" % txt(plain)[:50])
+                    res.violation("R1.10", h_, c_, "%s builds `%s` from a plain list whose `%s` is not behind a `not in` filter: two operands that "
+                                  "share exactly one end point (opposite half lines with a common origin) put it in twice, and "
+                                  "Segment(p, p) raises ValueError instead of the touching Point being returned"
+                                  % (h_.short, txt(c_)[:50], txt(plain)[:40]), construct="%s: `%s` from a list with duplicates" % (h_.short, txt(c_)[:40]))
+                    continue
                 res.ob("R1.10", h_.where(c_), "%s: `%s`" % (h_.short, txt(c_)[:50]), True, "two items of a deduplicated collection / computed points", nontrivial=False)
                 continue
             res.ob("R1.10", h_.where(c_), "%s: `%s`" % (h_.short, txt(c_)[:50]), guarded,
